@@ -9,6 +9,7 @@ import (
 	"go/constant"
 	"go/token"
 	"go/types"
+	"os"
 	"sort"
 	"strings"
 
@@ -1387,13 +1388,33 @@ func (x *Exec) noPanic(fr *Frame) bool {
 		return false
 	}
 	_, ok := x.TopC.Flags["no_panic"]
+	if !ok && defaultNoPanic != "" {
+		if _, out := x.TopC.Flags["may_panic"]; !out {
+			return true
+		}
+	}
 	return ok
 }
+
+// defaultNoPanic: the kinds of run-time check every function under contract is held to even without
+// a no_panic clause (a postcondition says nothing about an input on which the function panics, so a
+// change that turns an error return into an out-of-range panic would otherwise keep verifying);
+// `may_panic "<why>"` opts a function out.
+var defaultNoPanic = func() string {
+	if v, ok := os.LookupEnv("GVC_DEFAULT_NOPANIC"); ok {
+		return v
+	}
+	return "index, slice, divzero"
+}()
 
 // noPanicKind: `no_panic` alone covers every kind of run-time check; `no_panic index, slice, divzero`
 // restricts the F2 obligations to the listed kinds (the others are then assumptions of the claim).
 func (x *Exec) noPanicKind(kind string) bool {
-	v := strings.TrimSpace(x.TopC.Flags["no_panic"])
+	v, has := x.TopC.Flags["no_panic"]
+	v = strings.TrimSpace(v)
+	if !has {
+		v = defaultNoPanic
+	}
 	if v == "" {
 		return true
 	}
@@ -1417,7 +1438,7 @@ func (x *Exec) safety(st *State, fr *Frame, in ssa.Instruction, kind string, con
 func (x *Exec) doPanic(st *State, fr *Frame, in ssa.Instruction, why string) {
 	st.note("panic: %s", why)
 	// a panic is a violation of no_panic unless the path is infeasible
-	if x.noPanic(fr) {
+	if x.noPanic(fr) && x.noPanicKind("panic") {
 		x.emit(st, fr, "F2", x.siteLabel(fr, in, "panic"), TFalse, in)
 	}
 	st.dead = true
